@@ -11,7 +11,7 @@ git -C /repo worktree remove --force $WT 2>/dev/null; git -C /repo worktree add 
 for id in "${ids[@]}"; do
   P=${id%%-*}
   git -C $WT reset -q --hard; git -C $WT checkout -q --detach "$(git -C /repo rev-parse HEAD)"
-  if ! (git -C $WT apply seeded/$id/patch.diff 2>/dev/null || git -C $WT apply --3way seeded/$id/patch.diff 2>/dev/null); then
+  if ! (git -C $WT apply /verif/seeded/$id/patch.diff 2>/dev/null || git -C $WT apply --3way /verif/seeded/$id/patch.diff 2>/dev/null); then
     printf "%s\tpatch-does-not-apply\t\n" "$id" >> "$OUT.tmp"; continue
   fi
   mkdir -p /tmp/sweep-ev /tmp/sweep-rp
